@@ -162,7 +162,8 @@ def run_case(seed, big=False):
             continue
         if not out['samples']:
             out['samples'].append(dict(desc, output_fields=genchk.expected_fields(c, gradp, reactions)))
-        d = None if big else model_compare(model, c, gradp, reactions, floor, iimg)
+        d = None if big else model_compare(model, c, gradp, reactions, floor, iimg, chkdir)
+        count(f"whole conversion compared with Chk2pltTool.chk2plt_tool in one call={TOOL_CALLS[0] > 0}")
         if d:
             out['disagreements'].append(dict(desc, kind='model-vs-impl', what=d,
                                              correspondence='Writers.Chk2plt.convert_level vs chk2plt.convert'))
@@ -228,6 +229,16 @@ def written_header_compare(model, c, chkdir, gradp, reactions, iimg):
     toks = oracle.read_tokens(os.path.join(chkdir, 'Header'))
     wholes, toints, frepr = float_tables(toks)
     ns = len(c.species)
+    lo, hi, dxrows, bnds = header_oracles(c, toks)
+    st, m = model.call('chk_written', [toks, wholes, toints, [s_.encode() for s_ in c.species], 1 if gradp else 0, 1 if reactions else 0,
+                                       [4 + ns + 3, 3, ns], frepr, dxrows, bnds])
+    if st != 'ok':
+        return 'the model of the written Header refuses the checkpoint header'
+    return header_diff(m, iimg['header'], lo, hi)
+
+
+def header_oracles(c, toks):
+    """printed floats of an independent calculation: cell size = extent / cells, box bounds = low + index x cell size"""
     k = 3 + (1 if c.int_line else 0)
     lo = np.array([float(t) for t in toks[k + 3]])
     hi = np.array([float(t) for t in toks[k + 4]])
@@ -238,11 +249,10 @@ def written_header_compare(model, c, chkdir, gradp, reactions, iimg):
         dxrows.append([repr(float(x)).encode() for x in dx])
         bnds.append([[[repr(float(lo[d] + b0[d] * dx[d])).encode(), repr(float(lo[d] + (b1[d] + 1) * dx[d])).encode()] for d in range(3)]
                      for b0, b1 in c.levels[lv]['boxes']])
-    st, m = model.call('chk_written', [toks, wholes, toints, [s_.encode() for s_ in c.species], 1 if gradp else 0, 1 if reactions else 0,
-                                       [4 + ns + 3, 3, ns], frepr, dxrows, bnds])
-    if st != 'ok':
-        return 'the model of the written Header refuses the checkpoint header'
-    got = iimg['header']
+    return lo, hi, dxrows, bnds
+
+
+def header_diff(m, got, lo, hi):
     if len(m) != len(got):
         return f"written Header: {len(got)} lines, the model writes {len(m)}"
     scale = float(np.max(np.abs(np.concatenate([lo, hi])))) or 1.0
@@ -258,11 +268,15 @@ def written_header_compare(model, c, chkdir, gradp, reactions, iimg):
     return None
 
 
-def model_compare(model, c, gradp, reactions, floor, iimg):
+TOOL_CALLS = [0]
+
+
+def model_compare(model, c, gradp, reactions, floor, iimg, chkdir=None):
     """binary files and (file, offset) tables of every level against the model"""
     if not MODEL:
         return None
     ns = len(c.species)
+    reqs = []
     for lv in range(c.nlevels):
         lev = c.levels[lv]
         subs = {}
@@ -276,15 +290,41 @@ def model_compare(model, c, gradp, reactions, floor, iimg):
                 want = genchk.expected_box(c, lv, b, False, False, True)
                 floored.append([np.asarray(want[..., 4 + s], dtype='<f8').tobytes(order='F') for s in range(ns)])
         boxes = [[list(lo), list(hi)] for lo, hi in lev['boxes']]
-        if sum(len(c) for _, c in subs['state'][0]) > 250000:
-            continue      # the list-based model is quadratic in the file size: large levels are checked by the oracle only
-        nout = len(genchk.expected_fields(c, gradp, reactions))
-        st, m = model.call('chk2plt_level_dir', [nout, boxes, subs['state'][0], subs['state'][1], subs['gradp'][0], subs['gradp'][1],
-                                             subs['I_R'][0], subs['I_R'][1], 1 if gradp else 0, 1 if reactions else 0,
-                                             [floored] if floor else [], 4, ns])
+        small = sum(len(c) for _, c in subs['state'][0]) <= 250000
+        reqs.append((subs, floored, boxes, small))
+    if chkdir is not None and all(r[3] for r in reqs):
+        # every level is small enough for the list-based model: the WHOLE conversion in one call (theorem C17_tool)
+        toks = oracle.read_tokens(os.path.join(chkdir, 'Header'))
+        wholes, toints, frepr = float_tables(toks)
+        lo, hi, dxrows, bnds = header_oracles(c, toks)
+        st, m = model.call('chk2plt_tool', [toks, wholes, toints, frepr, dxrows, bnds, [s_.encode() for s_ in c.species],
+                                            1 if gradp else 0, 1 if reactions else 0,
+                                            [([fl] if floor else []) for _, fl, _, _ in reqs], 4, ns, [4 + ns + 3, 3, ns],
+                                            [[subs['state'][0], subs['state'][1], subs['gradp'][0], subs['gradp'][1], subs['I_R'][0], subs['I_R'][1]]
+                                             for subs, _, _, _ in reqs]])
         if st != 'ok':
-            return f'level {lv}: the model refuses the case'
-        mcellh, mfiles = m
+            return 'the model of the whole conversion (Chk2pltTool.chk2plt_tool) refuses the checkpoint'
+        mheader, mdirs = m
+        d = header_diff(mheader[0], iimg['header'], lo, hi) if mheader else 'the model writes no Header'
+        if d:
+            return d
+        if [n.decode() for n, _, _ in mdirs] != [f'Level_{lv}' for lv in range(c.nlevels)] or sorted(iimg['dirs']) != sorted(f'Level_{lv}' for lv in range(c.nlevels)):
+            return f"level directories {sorted(iimg['dirs'])} vs model {[n.decode() for n, _, _ in mdirs]}"
+        results = [(lv, mdirs[lv][1], mdirs[lv][2]) for lv in range(c.nlevels)]
+        TOOL_CALLS[0] += 1
+    else:
+        results = []
+        for lv, (subs, floored, boxes, small) in enumerate(reqs):
+            if not small:
+                continue      # the list-based model is quadratic in the file size: large levels are checked by the oracle only
+            nout = len(genchk.expected_fields(c, gradp, reactions))
+            st, m = model.call('chk2plt_level_dir', [nout, boxes, subs['state'][0], subs['state'][1], subs['gradp'][0], subs['gradp'][1],
+                                                 subs['I_R'][0], subs['I_R'][1], 1 if gradp else 0, 1 if reactions else 0,
+                                                 [floored] if floor else [], 4, ns])
+            if st != 'ok':
+                return f'level {lv}: the model refuses the case'
+            results.append((lv, m[0], m[1]))
+    for lv, mcellh, mfiles in results:
         d = iimg['dirs'][f'Level_{lv}']
         # the level header chk2plt wrote, token for token (floats by value: '%.16e' prints against the model's stand-ins)
         if not mcellh or oracle.canon_tokens(d['cellh']) != oracle.canon_tokens(mcellh[0]):
@@ -331,6 +371,9 @@ def run(tier, seed):
     rep.obligation('correspondence: Writers.ChkHeader.p_chk = CheckpointReader.__init__ on the checkpoint Header (levels, step, time, geometry, '
                    'boxes, pressure, typical values; with and without the integer line; whole-number times included)',
                    not any(v[0].get('kind') == 'model-vs-impl-chk-header' for v in rep.violations))
+    rep.obligation('correspondence: Chk2pltTool.chk2plt_tool (the whole conversion in one call: Header + every level directory) = the directory chk2plt '
+                   'wrote, on every checkpoint whose levels are small enough for the list-based model',
+                   not any(v[0].get('kind') in ('model-vs-impl', 'model-vs-impl-header') for v in rep.violations))
     rep.obligation('correspondence: Writers.ChkHeader.write_global_header = the Header chk2plt writes (every token; floating-point tokens up to rounding)',
                    not any(v[0].get('kind') == 'model-vs-impl-header' for v in rep.violations))
     return rep.finish(
